@@ -4,6 +4,8 @@ from contracts import formulas as F
 from contracts import core as K
 
 from contracts import wrappers as W
+from contracts import density as D_DEP
+from contracts import core as K_DEP
 ID = "C01"
 LEVEL = "other"
 TRUSTED = ["A3 int()/float() of a token", "A4 pyparsing PEG semantics and the parse-action splice protocol",
@@ -20,13 +22,14 @@ EXPLANATION = ("Deductive: token languages of the code's regex literals equal th
 def units(tier):
     return (([G.L_TOKENS, G.L_SHAPES, G.L_NO_SHARED_DEFAULTS, G.U_ACT_SYMBOL, G.U_ACT_ISOTOPE, G.U_ACT_ION, G.U_ACT_FRACT, G.U_ACT_WHOLE,
              G.U_CONVERT_ELEMENT] + G.U_CONVERT_IMPLICIT + G.U_CONVERT_EXPLICIT + G.U_CONVERT_COMPOUND +
-            [G.U_IMMUTABLE] + G.U_PARSE_FORMULA + [F.U_IMMUTABLE_REC, F.L_DEN_CONGRUENCE, F.U_COUNT_ATOMS, F.U_ATOMS, F.U_CHARGE, K.U_SYMBOL, K.U_EL_GETITEM, K.U_IONSET]) + [W.U_PKG[0]]) + [K.L_ATOM_IDENTITY]
+            [G.U_IMMUTABLE] + G.U_PARSE_FORMULA + [F.U_IMMUTABLE_REC, F.L_DEN_CONGRUENCE, F.U_COUNT_ATOMS, F.U_ATOMS, F.U_CHARGE, K.U_SYMBOL, K.U_EL_GETITEM, K.U_IONSET]) + [W.U_PKG[0]]) + [K.L_ATOM_IDENTITY] + ([D_DEP.U_DENSITY_EL, D_DEP.U_DENSITY_ISO, K_DEP.L_REGISTRATION])
 
 
 def runner_tasks(tier):
     return [{"module": "c01", "task": "recognition", "kind": "bounded", "clause": "whole-string recognition and rejection"},
             {"module": "stateful", "task": "C01", "name": "stateful", "kind": "bounded", "clause": "private table with customised data (masses, isotopes, densities, ion lists edited after first use): formulas parsed with table=T use T's atoms and data; every parse is a new formula"},
-            {"module": "stateful", "task": "identity", "name": "atom identity", "kind": "bounded", "clause": "different atoms are unequal, distinct dictionary keys, kept apart by formulas"}]
+            {"module": "stateful", "task": "identity", "name": "atom identity", "kind": "bounded", "clause": "different atoms are unequal, distinct dictionary keys, kept apart by formulas"},
+            {"module": "independence", "task": "observations", "name": "independence", "kind": "bounded", "arg": {"tags": ["C01"]}, "clause": "fixed observations give the same value as the first use of the library in a fresh interpreter, in a warmed-up interpreter (twice) and in reverse order, and have their documented value", "timeout": 900}]
 
 
 REPLAY = {"module": "c01", "task": "replay"}
